@@ -250,6 +250,20 @@ def _opt_sort(inner):
     return _opt_sorts[key]
 
 
+_dict_sorts = {}
+
+
+def _dict_sort(kty, vty):
+    """a dict held BY VALUE inside another container (key set + value array); identity and aliasing are not modelled, the
+    interpreter refuses to mutate a dict that was read out of / stored into a by-value position"""
+    key = repr((kty, vty))
+    if key not in _dict_sorts:
+        ks, vs = sort_of(kty), sort_of(vty)
+        nm = "Dict_" + "".join(ch if ch.isalnum() else "_" for ch in "%s_%s" % (ks, vs))
+        _dict_sorts[key] = z3.TupleSort(nm, [z3.ArraySort(ks, B), z3.ArraySort(ks, vs)])
+    return _dict_sorts[key]
+
+
 def _default(ty):
     if isinstance(ty, tuple) and ty[0] in ("opt", "rec", "tuple"):
         return z3.Const("junk_" + "".join(ch if ch.isalnum() else "_" for ch in str(sort_of(ty))), sort_of(ty))
@@ -275,6 +289,8 @@ def sort_of(ty):
         return z3.ArraySort(I, sort_of(ty[1]))
     if isinstance(ty, tuple) and ty[0] == "rec":
         return rec_sort(ty[1])[0]
+    if isinstance(ty, tuple) and ty[0] == "dict":
+        return _dict_sort(ty[1], ty[2])[0]
     if isinstance(ty, tuple) and ty[0] == "opt":
         return _opt_sort(ty[1])[0]
     if isinstance(ty, tuple) and ty[0] == "tuple":
@@ -308,6 +324,11 @@ def wrap(ty, term):
     if isinstance(ty, tuple) and ty[0] == "opt":
         srt, mk, accs = _opt_sort(ty[1])
         return VOpt(accs[0](term), wrap(ty[1], accs[1](term)))
+    if isinstance(ty, tuple) and ty[0] == "dict":
+        srt, mk, accs = _dict_sort(ty[1], ty[2])
+        b = VBox("dict", DictVal(ty[1], ty[2], accs[0](term), accs[1](term)), "byvalue")
+        b.frozen = True
+        return b
     if isinstance(ty, tuple) and ty[0] == "rec":
         srt, mk, accs = rec_sort(ty[1])
         fields = {}
@@ -363,6 +384,11 @@ def unwrap(ty, v):
         if isinstance(v, VOpt):
             return mk(v.isnone, z3.If(v.isnone, _default(ty[1]), unwrap(ty[1], v.val)))
         return mk(z3.BoolVal(False), unwrap(ty[1], v))
+    if isinstance(ty, tuple) and ty[0] == "dict":
+        srt, mk, accs = _dict_sort(ty[1], ty[2])
+        d = v.val if v.val is not None else empty_dict(ty[1], ty[2])
+        v.frozen = True              # from now on a second reference exists that the model does not track
+        return mk(d.keys, d.vals)
     if isinstance(ty, tuple) and ty[0] == "rec":
         srt, mk, accs = rec_sort(ty[1])
         if isinstance(v, VOpt):
@@ -401,6 +427,8 @@ def type_of(v):
         return ("tuple", [type_of(x) for x in v.items])
     if isinstance(v, VRef):
         return ("ref", v.cls)
+    if isinstance(v, VBox) and v.kind == "dict" and isinstance(v.val, DictVal):
+        return ("dict", v.val.kty, v.val.vty)
     if isinstance(v, VArr):
         return ("arr", v.ety)
     if isinstance(v, VObj) and v.cls in REC_CLASSES:
@@ -432,6 +460,10 @@ def fresh(ty, base, facts=None):
         return VRef(ty[1], z3.Int(nm))
     if isinstance(ty, tuple) and ty[0] == "arr":
         return VArr(ty[1], z3.Const(nm, sort_of(ty)))
+    if isinstance(ty, tuple) and ty[0] == "dict":
+        ks, vs = sort_of(ty[1]), sort_of(ty[2])
+        return VBox("dict", DictVal(ty[1], ty[2], z3.Const(nm + "_keys", z3.ArraySort(ks, B)),
+                                    z3.Const(nm + "_vals", z3.ArraySort(ks, vs))), base)
     raise TypeError("fresh %r" % (ty,))
 
 
